@@ -308,7 +308,7 @@ fn controller(cfg: &'static Cfg, ld: Arc<Loaded>, cap: usize, bps: Vec<usize>, c
         wait_until(60_000, |g| g.abandon);
     }
     // clean-up: let the parsing thread run to completion so that no thread is left behind
-    ctx.delete_all_breakpoints();
+    // (cont() through the remaining breakpoints; nothing here needs the breakpoint set's mutex)
     let deadline = Instant::now() + Duration::from_millis(3000);
     loop {
         if let Some(rx) = sh.rx.lock().unwrap().as_ref() { while rx.try_recv().is_ok() {} }
@@ -396,7 +396,9 @@ fn force(cfg: &'static Cfg, ld: &Arc<Loaded>, cap: usize, bps: &[usize], cmds: &
         if let Ok(slot) = sh.rx.try_lock() { if let Some(rx) = slot.as_ref() { while rx.try_recv().is_ok() {} } }
         wait_until(1, |_| false);
     }
-    if *sh.cleaned.lock().unwrap() { let _ = th.join(); }
+    let stuck = !*sh.cleaned.lock().unwrap();
+    if !stuck { let _ = th.join(); }
+    let timed_out = timed_out || stuck; // a controller that cannot even clean up counts against the budget
     if std::env::var("C17_TIME").is_ok() { eprintln!("schedule {:?} status {:?} cleanup {:?} steps {}", t_sched, t_status - t_sched, t_case.elapsed() - t_status, sched.len()); }
     let obs = sh.obs.lock().unwrap().join(",");
     (format!("{}|{}|{}", trace.join(" "), obs, status), timed_out)
@@ -458,7 +460,7 @@ fn main() {
                 let cap: usize = f[1].parse().unwrap();
                 let bps: Vec<usize> = f[2].split(',').filter(|x| !x.is_empty()).map(|x| x.parse().unwrap()).collect();
                 let cmds = parse_cmds(f[3]);
-                let (obs, to) = if timeouts >= 12 { ("SKIPPED(too many timeouts)".to_string(), false) }
+                let (obs, to) = if timeouts >= 8 { ("SKIPPED(too many timeouts)".to_string(), false) }
                                 else { force(&CFGS[ci], &loaded[ci], cap, &bps, &cmds, f[4]) };
                 if to { timeouts += 1; }
                 n += 1;
